@@ -41,7 +41,7 @@ class StripCommentsFilter:
             elif isinstance(token, sql.Comment):
                 # a group of consecutive comments: keep it if it holds a
                 # hint (its other comments have already been stripped)
-                if any(t.ttype in sql_hints for t in token.tokens):
+                if any(t.ttype in sql_hints for t in token.flatten()):
                     is_sql_hint = True
 
             if is_sql_hint:
@@ -68,6 +68,10 @@ class StripCommentsFilter:
                 # a valid SQL (see #425).
                 if prev_ is not None and not prev_.match(T.Punctuation, '('):
                     tlist.tokens.insert(tidx, _get_insert_token(token))
+                else:
+                    # nothing takes the place of the comment: its successor
+                    # moves to tidx and has to be looked at as well
+                    tidx -= 1
                 tlist.tokens.remove(token)
             else:
                 tlist.tokens[tidx] = _get_insert_token(token)
